@@ -939,3 +939,95 @@ fn supply_ranges(obs: &Obs) -> Vec<(u64, u64, u64)> {
     }
     v
 }
+
+
+/// C14, commands the agent itself sends: per target (node, lane) the decoded `RequestMessage`
+/// stream on the channel the runtime opened must contain every non-overwritable command exactly
+/// once, nothing twice, in send order; an overwritable command may be missing only if a later
+/// command to the same target exists.
+pub fn check_agent_commands(obs: &Obs, targets: &[(Option<String>, String, String)], out: &mut CaseOut) -> (u64, u64, u64) {
+    let quiescent_ok = obs.quiescent.is_some() && obs.stuck.is_empty();
+    let agent_alive_at_q = match (obs.quiescent, obs.rec.stopped) {
+        (Some(q), Some(st)) => st > q,
+        (Some(_), None) => true,
+        _ => false,
+    };
+    let q = obs.quiescent.unwrap_or(u64::MAX);
+    let mut received_total = 0u64;
+    let mut superseded = 0u64;
+    let mut batches_shared = 0u64;
+    out.events += obs.target_frames.len() as u64;
+    // A frame must be a command, addressed to a known target.
+    for f in &obs.target_frames {
+        if !f.is_command {
+            out.violation("C14", "agent-command/non-command-frame", "a frame other than a command was written to a command channel", json!({"lane": f.lane}));
+        }
+        if !targets.iter().any(|(_, n, l)| *n == f.node && *l == f.lane) {
+            out.violation("C14", "agent-command/unknown-target", "a command was forwarded to an address the agent never sent to", json!({"node": f.node, "lane": f.lane}));
+        }
+    }
+    for (ti, (host, node, lane)) in targets.iter().enumerate() {
+        // what the agent sent to this target, in handler order
+        let sent: Vec<(u64, u64, u32)> = obs.rec.sent.iter().filter(|s| s.1 as usize == ti).map(|s| (s.0, s.2, s.3)).collect();
+        let index: HashMap<u64, usize> = sent.iter().enumerate().map(|(i, s)| (s.1, i)).collect();
+        let recv: Vec<&crate::run::TargetFrame> = obs.target_frames.iter().filter(|f| f.node == *node && f.lane == *lane && f.ticket < q).collect();
+        received_total += recv.len() as u64;
+        let mut seen: HashSet<u64> = HashSet::new();
+        // order is checked per sending path: ad hoc sends and a registered commander are
+        // different channels into the runtime, only each of them is ordered
+        let mut last_adhoc: Option<usize> = None;
+        let mut last_reg: Option<usize> = None;
+        for f in &recv {
+            let v = parse_u64(&f.body);
+            let Some(v) = v else {
+                out.violation("C14", "agent-command/body-corrupt", "a forwarded command does not carry the value the agent sent", json!({"body": String::from_utf8_lossy(&f.body).chars().take(60).collect::<String>()}));
+                continue;
+            };
+            match index.get(&v) {
+                None => out.violation("C14", "agent-command/misdelivered-or-invented", "a command arrived at a target it was not sent to", json!({"value": v, "target": ti})),
+                Some(&i) => {
+                    if !seen.insert(v) {
+                        out.violation(
+                            "C14",
+                            format!("agent-command/duplicated/{}", if host.is_some() { "remote-host" } else { "local" }),
+                            "a command the agent sent once was forwarded more than once",
+                            json!({"value": v, "target": ti, "mode": sent[i].2}),
+                        );
+                        continue;
+                    }
+                    let last = if sent[i].2 == 0 { &mut last_adhoc } else { &mut last_reg };
+                    if last.map_or(false, |l| i < l) {
+                        out.violation("C14", "agent-command/reordered", "commands to one target were forwarded out of send order", json!({"value": v, "target": ti}));
+                    }
+                    *last = Some(last.map_or(i, |l| l.max(i)));
+                }
+            }
+        }
+        if quiescent_ok && agent_alive_at_q {
+            for (i, (_t, v, mode)) in sent.iter().enumerate() {
+                if seen.contains(v) {
+                    continue;
+                }
+                let later_exists = sent.iter().skip(i + 1).next().is_some();
+                if *mode == 2 {
+                    out.violation("C14", "agent-command/queued-command-lost", "a command sent with send_queued (never to be superseded) was not forwarded", json!({"value": v, "target": ti}));
+                } else if !later_exists {
+                    out.violation("C14", "agent-command/last-command-lost", "an overwritable command was dropped although no later command to the same target superseded it", json!({"value": v, "target": ti, "mode": mode}));
+                } else {
+                    superseded += 1;
+                }
+            }
+        }
+    }
+    // how often two targets shared one channel (remote host): the branch that batches several targets
+    let mut per_channel: HashMap<usize, HashSet<(String, String)>> = HashMap::new();
+    for f in &obs.target_frames {
+        per_channel.entry(f.target).or_default().insert((f.node.clone(), f.lane.clone()));
+    }
+    for set in per_channel.values() {
+        if set.len() > 1 {
+            batches_shared += 1;
+        }
+    }
+    (received_total, superseded, batches_shared)
+}
